@@ -155,7 +155,7 @@ def run(ctx, obl):
                 "such a value with every declared constant. non-trivial = distinct enum in WF; %d (value, flag) pairs executed" % npairs)
     res.exhaustive = True
     res.assumptions = ["the undefined `_<t>_map[v]` is meant to be the defined `_<t>_string_map[v]` (substituted in the scratch copy only)",
-                       "fmt %d prints the decimal form", "int and uint are 64 bit wide"]
+                       "fmt %d prints the decimal form", "int and uint are 64 bit wide (BitVec 64 for the kinds `int`/`uint`; amd64/arm64 in the runs); on a 32-bit GOARCH the -bit methods of an int/uint enum work on 32 bits, which is neither modelled nor exercised"]
     return res
 
 
